@@ -16,6 +16,7 @@ import (
 	"sort"
 	"strconv"
 	"strings"
+	"time"
 
 	"github.com/fogfish/golem/maplike"
 	"github.com/fogfish/golem/maplike/skiplist"
@@ -192,7 +193,9 @@ func runOn[K any](c *Case, o ord.Ord[K], toK func(int64) K, parse func(string) (
 	for i := range c.Steps {
 		st := &c.Steps[i]
 		var stepErr error
-		func() {
+		finished := make(chan struct{})
+		go func() {
+			defer close(finished)
 			// a panic of the library is an observation (no ordinary map panics), not a failure of the harness
 			defer func() {
 				if r := recover(); r != nil {
@@ -203,6 +206,16 @@ func runOn[K any](c *Case, o ord.Ord[K], toK func(int64) K, parse func(string) (
 			}()
 			stepErr = step(st)
 		}()
+		select {
+		case <-finished:
+		case <-time.After(5 * time.Second):
+			// ... and so is an operation that never returns (a lock that was not released, a cycle in the list)
+			c.Steps = append([]Step(nil), c.Steps[:i+1]...)
+			c.Steps[i].Panic = "the operation did not return within 5 s"
+			c.Steps[i].Gets = []int64{}
+			c.Steps[i].Print = []Entry{}
+			return nil
+		}
 		if stepErr != nil {
 			return stepErr
 		}
@@ -574,6 +587,8 @@ func (g *G) exhaustive(n int, limit int, emit func(*Case)) int {
 	return count
 }
 
+var hangs int
+
 func main() {
 	seed, _ := strconv.ParseInt(os.Getenv("VERIF_SEED"), 10, 64)
 	thorough := os.Getenv("VERIF_TIER") == "thorough"
@@ -589,6 +604,15 @@ func main() {
 		if err := enc.Encode(c); err != nil {
 			fmt.Fprintln(os.Stderr, "c18:", err)
 			os.Exit(2)
+		}
+		if n := len(c.Steps); n > 0 && strings.HasPrefix(c.Steps[n-1].Panic, "the operation did not return") {
+			hangs++
+			if hangs >= 3 {
+				// established; every further history would cost another 5 s
+				out.Flush()
+				fmt.Fprintln(os.Stderr, "c18: stopping after 3 histories in which an operation never returned")
+				os.Exit(0)
+			}
 		}
 	}
 
